@@ -25,7 +25,7 @@ func initEnv(c *core.Ctx) {
 	if err != nil {
 		panic(err)
 	}
-	if err := h.DB.AutoMigrate(&pred.Row{}, &CRow{}); err != nil {
+	if err := h.DB.AutoMigrate(&pred.Row{}, &CRow{}, &SRow{}); err != nil {
 		panic(err)
 	}
 	H = h
@@ -522,6 +522,7 @@ func run(c *core.Ctx) {
 		}
 	}
 	runComposite(c, st, table)
+	runSoft(c, st, table)
 }
 
 var Engine = &core.Engine{
